@@ -124,7 +124,7 @@ PROPS['C10'] = dict(
 )
 
 PROPS['C12'] = dict(
-    theorem='C12_count_prefix_latch (client_faults), C12_ops_bytes (Properties/C12.v)',
+    theorem='C12_ops_bytes, C12_count_prefix_latch, C12_returns, C12_returns_fault_writers, C12_gap_loop_fixed_returns (Properties/C12.v)',
     functional=True,
     level_text='Theorem for every underlying writer (any function from call history to (n, err)), every buffer size >= 1 and every operation sequence: with bufio.Writer as '
                'modelled, the bytes accepted are a prefix of the fault-free output, the returned count is their number, no call reaches the writer after an error is latched, '
@@ -132,8 +132,8 @@ PROPS['C12'] = dict(
                'Differential run: Fprint/Fwrite of all versions against the extracted model under every fault point k, four fault modes and buffer sizes 1..4096, comparing '
                '(n, err, writer calls, accepted bytes) exactly; digit-source calls are checked against the prompt-stop bound.',
     level_note='bufio.Writer (Write, WriteString, WriteByte, WriteRune, Flush) and fmt\'s single Write per Fprintf are modelled from the Go 1.23 sources. Writers answering (0, nil) '
-               'to a non-empty direct write make bufio itself loop and are excluded from the fault space (progress-or-error). Termination (returns without hanging) is checked '
-               'by a wall-clock budget per case on the implementation and by fuel on the model.',
+               'to a non-empty direct write make bufio itself loop and are excluded from the fault space (progress-or-error); under that hypothesis termination is a theorem '
+               '(C12_returns: fuel 2*len+2 per operation always suffices) and is also checked by a wall-clock budget per case on the implementation.',
     rule='cases: ~70 layouts (900 thorough) from the C10 generator over generator-backed Numbers with counted sources; for each, every fault point k in [0, N+1] (strided above 120 '
          'bytes) x modes {error+partial write, error+no write, short write without error, error then recovery} x buffer sizes {1,2,3,5,16,64,default}. Non-trivial: a fault '
          'occurred, with a partial prefix delivered, or a small buffer; distinct = distinct (version, args).',
